@@ -273,3 +273,51 @@ def run_modes(sc, modes, rids=None, qids=None, it=1):
             line = run_line(sc, mode, res["seeds"], rids=rids, qids=qids, it=it)
             out[mode] = {"real": res, "line": line, "real_out": real_run_output(res), "cands": rc.items}
     return out
+
+
+def readback(path, rpath, qpath):
+    """read one written XMAP with the project's own reader (pairs with coordinates)"""
+    from src.parsers.cmap_reader import CmapReader
+    from src.parsers.xmap_reader import XmapReader
+    from src.parsers.xmap_alignment_pair_parser import XmapAlignmentPairWithDistanceParser
+    import math
+    try:
+        with open(rpath) as f:
+            refs = CmapReader().readReferences(f)
+        with open(qpath) as f:
+            qs = [q.trim() for q in CmapReader().readQueries(f)]
+        with open(path) as f:
+            als = XmapReader(XmapAlignmentPairWithDistanceParser(refs, qs)).readAlignments(f)
+    except BaseException as e:  # noqa
+        if isinstance(e, (KeyboardInterrupt, MemoryError)):
+            raise
+        return {"error": type(e).__name__ + ": " + str(e)[:200]}
+    out = []
+    for a in als:
+        hit = a.cigarString
+        if isinstance(hit, float) and math.isnan(hit):
+            hit = ""
+        out.append({"id": int(a.alignmentId), "q": int(a.queryId), "r": int(a.referenceId), "qs": a.queryStartPosition,
+                    "qe": a.queryEndPosition, "rs": a.referenceStartPosition, "re": a.referenceEndPosition,
+                    "rev": bool(a.reverseStrand), "conf": float(a.confidence), "hit": str(hit), "ql": a.queryLength,
+                    "rl": a.referenceLength,
+                    "pairs": [(int(p.reference.siteId), float(p.reference.position), int(p.query.siteId), float(p.query.position))
+                              for p in a.alignedPairs]})
+    return {"alignments": out}
+
+
+def run_modes_rb(sc, modes, rids=None, qids=None, it=1, do_readback=True):
+    """like run_modes, plus read-back of every written file before the work directory is removed"""
+    out = {}
+    with Workdir() as d:
+        for mode in modes:
+            rc = RowCatcher()
+            res = run_real(sc, mode, d, serial=True, rids=rids, qids=qids, extensions=[rc])
+            line = run_line(sc, mode, res["seeds"], rids=rids, qids=qids, it=it)
+            rb = {}
+            if do_readback and not res["error"]:
+                for n, p in res["paths"].items():
+                    if os.path.exists(p):
+                        rb[n] = readback(p, os.path.join(d, "r.cmap"), os.path.join(d, "q.cmap"))
+            out[mode] = {"real": res, "line": line, "real_out": real_run_output(res), "cands": rc.items, "readback": rb}
+    return out
